@@ -103,6 +103,24 @@ Section Model.
   Definition hals_obj (G B V : mat) (l1 l2 : F) (rank ncols : nat) : F :=
     gsum ncols (fun c => hals_col_obj G B V l1 l2 rank c).
 
+  (* ---------------- HALS block of non_negative_parafac_hals (decomposition/_nn_cp.py) ----------------
+     hals_nnls is called with UtU = pseudo_inverse (the weighted Hadamard product of the Grams, no ridge),
+     UtM = transpose(mttkrp) and V = transpose(factors[mode]); the new factor is the transpose of its result *)
+  Definition mat_T (rows cols : nat) (A : mat) : mat := tab2 cols rows (fun c r => mget A r c).   (* transpose of a rows x cols matrix *)
+  Definition cp_hals_B (X : tensor F) (w : list F) (facs : list mat) (k rank : nat) : mat :=
+    tab2 rank (nth k (shape X) 0) (fun r i => cp_mttkrp X w facs k i r).
+  Definition cp_hals_block (X : tensor F) (w : list F) (rank : nat) (l1 l2 eps : F) (n : nat) (facs : list mat) (k : nat) : list mat :=
+    let dk := nth k (shape X) 0 in
+    let G := cp_G_mat (shape X) w facs k (f0 Op) rank in
+    let B := cp_hals_B X w facs k rank in
+    set_nth k (mat_T rank dk (hals_iter G B l1 l2 eps rank dk n (mat_T dk rank (nth k facs [])))) facs.
+  (* what such a block descends on: half the squared error + l1 * sum(A_k) + l2 * ||A_k||^2 *)
+  Definition cp_pen_obj (X : tensor F) (w : list F) (facs : list mat) (k : nat) (l1 l2 : F) (rank : nat) : F :=
+    let dk := nth k (shape X) 0 in let A := nth k facs [] in
+    cp_sqerr X w facs rank /f two
+    +f l1 *f gsum dk (fun i => gsum rank (fun r => mget A i r))
+    +f l2 *f gsum dk (fun i => gsum rank (fun r => fsq (mget A i r))).
+
   (* ---------------- generic (ridge) least-squares block with several right-hand sides ----------------
      used for the blocks of tensor_ring_als (design matrix = reshaped sub-chain), the ridge ALS of the
      CP / Tucker regressors and the coupled matrix-tensor ALS: the design matrix is captured from the
